@@ -32,6 +32,7 @@ Statements
   ["blk", [stmts], [[V|None, [stmts]]...], [stmts]|None]  do/catch/finally
   ["ret", E|None] ["brk"] ["cont"]
   ["req", form, spec, extra]  require
+  ["runf", path]              run('path')  (script file; non-secure only)
 Expressions
   int | ["f", float] | ["s", str] | ["b", bool] | ["n"] | ["l", [E]] |
   ["set", [E]] | ["map", [[E, E]]] | ["v", name] |
@@ -316,6 +317,8 @@ def rS(S):
         return "break"
     if t == "cont":
         return "continue"
+    if t == "runf":
+        return f"run('{S[1]}')"
     if t == "req":
         form, spec, extra = S[1], S[2], S[3]
         s = "require " + (spec["id"] if "id" in spec
@@ -435,6 +438,7 @@ class Machine:
         self.ctx = []               # 'handler' / 'finally' nesting
         self.blockdepth = 0
         self.active = []            # names of the functions being executed
+        self.nonsecure = False      # does this interpreter have `run`?
 
     def stat(self, key):
         self.stats[key] = self.stats.get(key, 0) + 1
@@ -623,6 +627,22 @@ class Machine:
             return Ctl("cont")
         if t == "req":
             return self.require(S, scope)
+        if t == "runf":
+            # the script runner exists in non-secure interpreters only and
+            # evaluates the file in the session of the interpreter that
+            # owns it, wherever it is called from
+            if not self.nonsecure:
+                raise Err(ERROR, "run is not defined")
+            entry = self.store.files.get(S[1])
+            if entry is None:
+                raise Err(ERROR, "file not found")
+            if "raw" in entry:
+                raise Err(ERROR, "syntax error in script")
+            self.stat("script_file_run")
+            r = self.run_block(entry["ir"], self.session)
+            if isinstance(r, Ctl):
+                return r.value if r.kind == "ret" else None
+            return r
         if t == "raw":
             raise SynErr()
         raise ValueError(S)
@@ -891,10 +911,9 @@ class Machine:
                     same = (n in scope.vars and n not in scope.unspec
                             and scope.vars[n] is v and v is not None
                             and not isinstance(v, ModObj))
-                    if isinstance(v, ModObj) and n in scope.vars and \
-                            isinstance(scope.vars[n], ModObj) and \
-                            scope.vars[n].mod == v.mod:
-                        same = True
+                    # (two module objects of one module are not
+                    # interchangeable: each is a snapshot of the module's
+                    # public data at the time of its require)
                     if not same:
                         scope.vars.pop(n, None)
                         scope.unspec.add(n)
